@@ -138,6 +138,16 @@ pub fn push_case<'a>(bt: &mut Batch<'a>, rep: &mut Report, o: Opts, src: Src, sr
     // K: hypotheses of the theorems, evaluated by the model on this tree
     let i0 = input.clone();
     let from_doc = matches!(src, Src::Doc(_));
+    // the string entry point must return what parse + format_xml return (all of it: it writes through a buffer)
+    if let Src::Doc(md) = &src {
+        let c = o.to_comrak();
+        if let Ok(sx) = std::panic::catch_unwind(std::panic::AssertUnwindSafe(|| comrak::markdown_to_commonmark_xml(md, &c))) {
+            rep.s_evals += 1;
+            if sx.as_bytes() != r.xml.as_slice() {
+                rep.fail("string-api-differs", "markdown_to_commonmark_xml", input.clone(), crate::util::diff_window(&r.xml, sx.as_bytes()).replace("real", "parse+format_xml").replace("model", "markdown_to_commonmark_xml"));
+            }
+        }
+    }
     bt.push(format!("xmlshape {}", r.tree_wire), move |resp, rep| {
         rep.k_evals += 1;
         if resp != "1" {
